@@ -1,23 +1,78 @@
 import Frp.Driver.Proto
 import Frp.Model.Ports
+import Frp.Model.AllowPorts
 /-
   Driver engine "ports" (C09/C10): replays the harness trace on Frp/Model/Ports.lean.
-  Port numbers in the model are relative+100 (relative k of the harness ↦ 100+k; allowed = 101..108),
-  so that 0 keeps its meaning "server-chosen".  `raw<v>` values (negative, > 65535, 1) are mapped to
+  Port numbers in the model are relative+100 (relative k of the harness ↦ 100+k), so that 0 keeps its
+  meaning "server-chosen".  The allowed set is what the model of the configuration path
+  (Frp/Model/AllowPorts.lean: entries → Complete → NewManager seed) makes of the `reset` op's
+  allowPorts entries; a port outside the harness' block of 10 is reported as `abs<p>` and mapped to
+  1000000+p — outside every allow set.  The `seed` op compares the seed set alone, on absolute ports.  `raw<v>` values (negative, > 65535, 1) are mapped to
   100000+|v| — a port value outside every allow set (the Go code treats them all the same way:
   not in freePorts, not in usedPorts ⇒ ErrPortNotAllowed).
 -/
 namespace Frp
 namespace Engines
 open Proto Ports
+open ConfNum (PortsRange)
 
 structure PortsState where
   s : Srv := Srv.new [] [] 0
+  /-- the operator's allowed set (model ports), as computed by `AllowPorts.seedNat` at `reset` -/
+  allowed : List Nat := []
   /-- `true`: the udp forwarder's deferred Close releases the port only under the `!isClosed` guard
       (repaired code); `false`: pinned tree -/
   guarded : Bool := true
 
-def allowedRel : List Nat := [101, 102, 103, 104, 105, 106, 107, 108]
+/-- allowPorts entries of an op token: `s<n>` (single) / `r<a>-<b>` (range), comma separated; `-` = none.
+    `off` is added to every number (100 for block-relative entries, 0 for absolute ones). -/
+def portsParseEntries (off : Nat) (t : String) : Option (List PortsRange) :=
+  if t = "-" then some []
+  else (t.splitOn ",").mapM fun e =>
+    if e.startsWith "s" then
+      ((e.drop 1).toString.toNat?).map (fun n => ({ start := 0, stop := 0, single := ((n + off : Nat) : Int) } : PortsRange))
+    else if e.startsWith "r" then
+      match (e.drop 1).toString.splitOn "-" with
+      | [a, b] =>
+        match a.toNat?, b.toNat? with
+        | some a, some b => some { start := ((a + off : Nat) : Int), stop := ((b + off : Nat) : Int), single := 0 }
+        | _, _ => none
+      | _ => none
+    else none
+
+/-- what the configuration path makes of the entries written in textual form (`str`: the
+    `--allow_ports` flag, `ini`: legacy `allow_ports = …`): `PortsRangeSlice.String`-style text through
+    `NewPortsRangeSliceFromString` (Frp/Model/ConfNum.lean); `none` = the loader reports an error.
+    `lit` / `toml` carry the entries as they are. -/
+def portsViaForm (form : String) (es : List PortsRange) : Option (List PortsRange) :=
+  if form = "str" ∨ form = "ini" then
+    if es = [] then some [] else ConfNum.parseRanges (ConfNum.printRanges es)
+  else some es
+
+def portsIv (iv : List (Int × Int)) : String :=
+  ",".intercalate (iv.map fun (lo, hi) => if lo = hi then toString lo else s!"{lo}-{hi}")
+
+def portsParseIv (f : String) : Option (List (Int × Int)) :=
+  if f = "" then some []
+  else (f.splitOn ",").mapM fun t =>
+    match t.splitOn "-" with
+    | [a] => (a.toNat?).map (fun n => ((n : Int), (n : Int)))
+    | [a, b] =>
+      match a.toNat?, b.toNat? with
+      | some a, some b => some ((a : Int), (b : Int))
+      | _, _ => none
+    | _ => none
+
+def allowedB (a : List PortsRange) (p : Int) : Bool := decide (AllowPorts.allowedBy a p)
+
+/-- the property on the implementation's own seed set, given as maximal intervals: it is exactly the
+    union of the operator's entries — nothing outside (every point of every interval is covered by an
+    entry) and nothing missing (every port an entry means lies in an interval) -/
+def seedHolds (a : List PortsRange) (iv : List (Int × Int)) : Bool :=
+  let size := iv.foldl (fun n (lo, hi) => n + (hi + 1 - lo).toNat) 0
+  decide (size ≤ 70000) &&
+  iv.all (fun (lo, hi) => (AllowPorts.intRange lo hi).all (allowedB a)) &&
+  (AllowPorts.seed a).all (fun p => p < 0 || iv.any (fun (lo, hi) => decide (lo ≤ p ∧ p ≤ hi)))
 
 def portsParseProto (t : String) : Option Proto :=
   if t = "tcp" then some .tcp else if t = "udp" then some .udp else none
@@ -32,6 +87,12 @@ def portsParseReq (t : String) : Option Nat :=
   else if t.startsWith "r" then ((t.drop 1).toString.toNat?).map (· + 100)
   else none
 
+/-- a port in the implementation's answer: `<k>` (block-relative) ↦ 100+k, `abs<p>` ↦ 1000000+p -/
+def portsImplPort (t : String) (present : Bool) : Option Nat :=
+  if !present then none
+  else if t.startsWith "abs" then ((t.drop 3).toString.toNat?).map (· + 1000000)
+  else (t.toNat?).map (· + 100)
+
 def portsErrClass : RegErr → String
   | .quota => "quota"
   | .exists_ => "exists"
@@ -40,6 +101,8 @@ def portsErrClass : RegErr → String
   | .acquire .unavailable => "unavailable"
   | .acquire .noAvailable => "noavailable"
   | .listen => "listen"
+  | .grpPort => "grpport"
+  | .grpAuth => "grpauth"
 
 def portsInsertSorted (x : Nat) : List Nat → List Nat
   | [] => [x]
@@ -61,21 +124,35 @@ def renderView (s : Srv) : String := renderPM s .tcp ++ renderPM s .udp
 
 /-- accounting = what is really bound: every used port is held by a live proxy of frp and every
     socket frp holds is accounted as used; free/used partition the allowed set -/
-def viewHolds (s : Srv) : Bool :=
+def viewHolds (allowed : List Nat) (s : Srv) : Bool :=
   [Proto.tcp, Proto.udp].all fun pr =>
     let pm := s.pm pr
-    allowedRel.all (fun p =>
+    allowed.all (fun p =>
       (decide (p ∈ pm.usedKeys) == s.live.any (fun x => x.proto = pr ∧ x.port = p)) &&
       (decide (p ∈ pm.free) != decide (p ∈ pm.usedKeys))) &&
-    pm.free.all (· ∈ allowedRel) && pm.usedKeys.all (· ∈ allowedRel)
+    pm.free.all (· ∈ allowed) && pm.usedKeys.all (· ∈ allowed)
 
 /-- what must hold of a successful registration, judged on the state before it -/
-def regHolds (s : Srv) (sid : Nat) (pr : Proto) (p : Nat) : Bool :=
-  decide (p ∈ allowedRel) && !s.bound pr p && (s.maxPorts == 0 || decide (s.quotaOf sid + 1 ≤ s.maxPorts))
+def regHolds (allowed : List Nat) (s : Srv) (sid : Nat) (pr : Proto) (req p : Nat) : Bool :=
+  decide (p ∈ allowed) && !s.bound pr p && (s.maxPorts == 0 || decide (s.quotaOf sid + 1 ≤ s.maxPorts)) &&
+  (req == 0 || req == p)
+
+/-- the same for a member of tcp group `g`: the reported port is allowed, is the requested one unless
+    the server was to choose, and is THE PORT THE GROUP LISTENS ON — a port nobody held if this member
+    founds the group, the port of the group's live members otherwise -/
+def regGHolds (allowed : List Nat) (s : Srv) (sid : Nat) (g : Str) (req p : Nat) : Bool :=
+  decide (p ∈ allowed) && (s.maxPorts == 0 || decide (s.quotaOf sid + 1 ≤ s.maxPorts)) &&
+  (req == 0 || req == p) &&
+  (match s.groupOf g with
+   | none => !s.bound .tcp p
+   | some m => m.port == p)
 
 /-- numbers of a comma separated field like "1,2,5" or used entries "2=t1,7=u3" (the part before '=') -/
 def portsNums (f : String) : List Nat :=
-  (f.splitOn ",").filterMap (fun t => ((t.splitOn "=").headD "").toNat?)
+  (f.splitOn ",").filterMap (fun t =>
+    let k := (t.splitOn "=").headD ""
+    -- ports outside the block (`out<count>` in a free list, `abs<p>` as a used key) ↦ 999
+    if k.startsWith "out" ∨ k.startsWith "abs" then some 999 else k.toNat?)
 
 /-- the three fields of one "proto[free=…;used=…;bound=…]" section -/
 def portsSection (v : String) (nm : String) : Option (List Nat × List Nat × List Nat) :=
@@ -91,14 +168,14 @@ def portsSection (v : String) (nm : String) : Option (List Nat × List Nat × Li
 
 /-- property on the implementation's own view: free/used partition the allowed set and the used
     ports are exactly the sockets frp holds (bound minus the foreign sockets) -/
-def implViewHolds (s : Srv) (impl : String) : Option Bool :=
+def implViewHolds (allowed : List Nat) (s : Srv) (impl : String) : Option Bool :=
   let one (pr : Proto) (nm : String) : Option Bool :=
     match portsSection impl nm with
     | some (free, used, bound) =>
       let ext := s.ext.filterMap (fun e => if e.1 = pr then some (e.2 - 100) else none)
       let own := bound.filter (fun p => !ext.contains p)
-      some ((List.range 10).all (fun k =>
-        let inAllowed := decide (1 ≤ k ∧ k ≤ 8)
+      some (free.all (· < 10) && used.all (· < 10) && (List.range 10).all (fun k =>
+        let inAllowed := decide (k + 100 ∈ allowed)
         (decide (k ∈ used) == decide (k ∈ own)) &&
         (if inAllowed then decide (k ∈ free) != decide (k ∈ used) else !(decide (k ∈ free)) && !(decide (k ∈ used)))))
     | none => none
@@ -108,19 +185,40 @@ def implViewHolds (s : Srv) (impl : String) : Option Bool :=
 
 def portsStep (st : PortsState) (tok : List String) (impl : String) : PortsState × Verdict :=
   match tok with
-  | ["reset", m] =>
-    match m.toNat? with
-    | some m => ({ st with s := Srv.new allowedRel allowedRel m }, verdictOf "-" impl)
-    | none => (st, .bad "reset")
+  | ["reset", m, form, ents] =>
+    -- the real server is built by server.NewService from a configuration carrying these entries
+    match m.toNat?, (portsParseEntries 100 ents).bind (portsViaForm form) with
+    | some m, some es =>
+      let s0 := AllowPorts.newService es m
+      ({ st with s := s0, allowed := AllowPorts.seedNat (AllowPorts.complete es) }, verdictOf "-" impl)
+    | _, _ => (st, .bad "reset")
+  | ["seed", form, ents] =>
+    match portsParseEntries 0 ents with
+    | none => (st, .bad "seed")
+    | some es0 =>
+      match portsViaForm form es0 with
+      | none => (st, verdictOf "err" impl)
+      | some es =>
+        let ms := portsIv (AllowPorts.intervals ((AllowPorts.seed (AllowPorts.complete es)).filter (0 ≤ ·)))
+        let prop : Option Bool :=
+          match impl.splitOn ";" with
+          | [t, u] =>
+            if t.startsWith "tcp=" ∧ u.startsWith "udp=" then
+              match portsParseIv (t.drop 4).toString, portsParseIv (u.drop 4).toString with
+              | some it, some iu => some (seedHolds es it && seedHolds es iu)
+              | _, _ => some false
+            else some false
+          | _ => if impl = "err" then none else some false
+        (st, verdictOf s!"tcp={ms};udp={ms}" impl prop)
   | ["reg", sid, name, proto, req, grab] =>
     match sid.toNat?, portsParseProto proto, portsParseReq req with
     | some sid, some pr, some port =>
-      let implOk : Option Nat :=
-        if impl.startsWith "ok:" then ((impl.drop 3).toString.toNat?).map (· + 100) else none
+      let implOk : Option Nat := portsImplPort (impl.drop 3).toString (impl.startsWith "ok:")
       -- the port the implementation had acquired (reported on success and on a failed listen)
       let implChoice : Option Nat :=
-        if impl.startsWith "err:listen:" then ((impl.drop 11).toString.toNat?).map (· + 100) else implOk
+        if impl.startsWith "err:listen:" then portsImplPort (impl.drop 11).toString true else implOk
       let (s', res) := st.s.register sid (Str.ofString name) pr port implChoice (grab = "1")
+      let allowed := st.allowed
       let ms := match res with
         | .ok p => s!"ok:{p - 100}"
         | .error .listen =>
@@ -129,7 +227,7 @@ def portsStep (st : PortsState) (tok : List String) (impl : String) : PortsState
       -- property on the implementation's own answer
       let prop : Bool :=
         match implOk with
-        | some p => regHolds st.s sid pr p
+        | some p => regHolds allowed st.s sid pr port p
         | none =>
           -- a "no available port" refusal is legitimate only if the ≤5 random tries could all fail
           if impl = "err:noavailable" then
@@ -139,6 +237,28 @@ def portsStep (st : PortsState) (tok : List String) (impl : String) : PortsState
           else true
       ({ st with s := s' }, verdictOf ms impl (some prop))
     | _, _, _ => (st, .bad "reg")
+  | ["regg", sid, name, g, key, req, grab] =>
+    match sid.toNat?, portsParseReq req with
+    | some sid, some port =>
+      let implOk : Option Nat := portsImplPort (impl.drop 3).toString (impl.startsWith "ok:")
+      let implChoice : Option Nat :=
+        if impl.startsWith "err:listen:" then portsImplPort (impl.drop 11).toString true else implOk
+      let gi : GInfo := { g := Str.ofString g, key := Str.ofString key, req := port }
+      let (s', res) := st.s.registerG sid (Str.ofString name) gi implChoice (grab = "1")
+      let ms := match res with
+        | .ok p => s!"ok:{p - 100}"
+        | .error .listen =>
+          (match implChoice with | some p => s!"err:listen:{p - 100}" | none => "err:listen")
+        | .error e => s!"err:{portsErrClass e}"
+      let prop : Bool :=
+        match implOk with
+        | some p => regGHolds st.allowed st.s sid gi.g port p
+        | none =>
+          if impl = "err:noavailable" then
+            (st.s.groupOf gi.g).isNone && st.s.tcp.randomMayFail (st.s.avail .tcp)
+          else true
+      ({ st with s := s' }, verdictOf ms impl (some prop))
+    | _, _ => (st, .bad "regg")
   | ["close", sid, name] =>
     match sid.toNat? with
     | some sid => ({ st with s := st.s.close sid (Str.ofString name) }, verdictOf "-" impl)
@@ -160,7 +280,7 @@ def portsStep (st : PortsState) (tok : List String) (impl : String) : PortsState
     -- the rendering is compared exactly; the property (accounting = what is really bound) is judged
     -- on the IMPLEMENTATION's rendering, with the harness-controlled foreign sockets taken from `ext`
     let ms := renderView st.s
-    (st, verdictOf ms impl (implViewHolds st.s impl))
+    (st, verdictOf ms impl (implViewHolds st.allowed st.s impl))
   | _ => (st, .bad "op")
 
 def ports : Engine := { State := PortsState, init := {}, step := portsStep }
